@@ -419,6 +419,6 @@ func init() {
 	register(&propertySpec{
 		ID:      "C14",
 		Explain: "Static error-flow and shape rules for script execution: script errors reach the node that ran the script, a recovered interrupt becomes an error, the watchdog hand-shake cannot block the caller, nodes are complete only without error. Does not decide that the interrupt actually stops the engine within a bound, the timeout arithmetic, or what a finishing script sees.",
-		Rules:   []ruleFn{ruleTimerRecycle, ruleLoopScratch("C14"), ruleJsErr, ruleRecoverResult, ruleChanHandshake, ruleTimeoutUnset, ruleAncSelfLast, ruleAncRestore, ruleDispErr, ruleThunkLazy, ruleCtorParam("C14"), ruleRecoverAll("C14"), ruleTypedNil("C14"), ruleMemoKey("C14")},
+		Rules:   []ruleFn{ruleCtxScript, ruleTimerRecycle, ruleLoopScratch("C14"), ruleJsErr, ruleRecoverResult, ruleChanHandshake, ruleTimeoutUnset, ruleAncSelfLast, ruleAncRestore, ruleDispErr, ruleThunkLazy, ruleCtorParam("C14"), ruleRecoverAll("C14"), ruleTypedNil("C14"), ruleMemoKey("C14")},
 	})
 }
